@@ -60,8 +60,11 @@ func genC05(seed uint64, i int, exhaustive bool) *world.Case {
 		return x
 	}
 	var last int
-	ops := []string{"reshard", "reduce", "cogroup", "reshuffle", "fold", "reshard", "cogroup", "reduce"}
+	ops := []string{"reshard", "reduce", "cogroup", "reshuffle", "fold", "shared", "cogroup", "reduce"}
 	op := ops[k%len(ops)]
+	if op == "shared" && kind == "kkv2" {
+		op = "reshuffle"
+	}
 	if op == "fold" && !(kt == "int" || kt == "int64" || kt == "string") || (op == "fold" && kind == "kkv2") {
 		op = "reshard"
 	}
@@ -77,6 +80,16 @@ func genC05(seed uint64, i int, exhaustive bool) *world.Case {
 		last = add(spec.Node{Op: "reduce", Fn: "sum", In: []int{src(S)}})
 	case "fold":
 		last = add(spec.Node{Op: "fold", Fn: "cnt", In: []int{src(S)}})
+	case "shared":
+		// One source feeding a custom-partitioned and a hash-partitioned shuffle of
+		// the same width in one invocation; both observed, then joined.
+		x := src(S)
+		a := add(spec.Node{Op: "repartition", Fn: "vmod", In: []int{x}})
+		a = add(spec.Node{Op: "writerfunc", In: []int{a}})
+		b := add(spec.Node{Op: "reshuffle", In: []int{x}})
+		b = add(spec.Node{Op: "writerfunc", In: []int{b}})
+		last = add(spec.Node{Op: "cogroup", In: []int{b, a}})
+		last = add(spec.Node{Op: "map", Fn: "cgflat", In: []int{last}})
 	case "cogroup":
 		a := src(S)
 		if P > S {
